@@ -43,12 +43,16 @@ fn main() {
         }
         return;
     }
+    if args.len() >= 2 && args[1] == "miri-shard" {
+        std::process::exit(props::miri::run());
+    }
     if args.len() >= 3 && args[1] == "run-scn" {
         // debugging aid: run the scenario stored in a replay file (or a bare scenario JSON) with all basic oracles
         let txt = std::fs::read_to_string(&args[2]).expect("cannot read file");
         let v: serde_json::Value = serde_json::from_str(&txt).expect("not JSON");
         let sv = if v.get("case_desc").is_some() { v["case_desc"]["scenario"].clone() } else { v };
-        let s: scn::Scn = serde_json::from_value(sv).expect("not a scenario");
+        let mut s: scn::Scn = serde_json::from_value(sv).expect("not a scenario");
+        s.keep_log = true;
         let all = args.get(3).is_none_or(|a| a != "--no-oracles");
         let o = if all { world::Oracles { c12_running: false, ..world::Oracles::all_basic() } } else { world::Oracles::default() };
         let c = world::run_scn(&s, o);
@@ -57,6 +61,13 @@ fn main() {
         }
         for l in gen::world_witness(&c) {
             println!("{l}");
+        }
+        if args.iter().any(|a| a == "--log") {
+            if let Some(l) = &c.net.borrow().log {
+                for e in l.iter() {
+                    println!("pkt t={}ms {}->{} {} {:?}", (e.t - base::T0) / base::MS, e.from, e.to, e.what, e.msg);
+                }
+            }
         }
         println!("end t={}ms hit_limit={}", (c.end_t - base::T0) / base::MS, c.hit_limit);
         return;
@@ -120,6 +131,16 @@ fn main() {
     }
     if ctx.tier != "quick" && ctx.tier != "thorough" {
         usage();
+    }
+    // wall-clock watchdog around the whole check: its firing is inconclusive, never a violation
+    {
+        let limit = std::time::Duration::from_secs(if ctx.quick() { 30 * 60 } else { 6 * 3600 });
+        let p = prop.clone();
+        std::thread::spawn(move || {
+            std::thread::sleep(limit);
+            println!("INCONCLUSIVE property={p} wall-clock watchdog fired after {} s (a call did not return?)", limit.as_secs());
+            std::process::exit(2);
+        });
     }
     let code = match prop.as_str() {
         "C01" => props::c01::check(&ctx),
